@@ -14,6 +14,8 @@ pub(super) struct CidState {
     issued: u64,
     /// Sequence numbers of local connection IDs not yet retired by the peer
     active_seq: FxHashSet<u64>,
+    /// Number of additional connection IDs requested from the endpoint that have not arrived yet
+    requested: u64,
     /// Sequence number the peer has already retired all CIDs below at our request via `retire_prior_to`
     prev_retire_seq: u64,
     /// Sequence number to set in retire_prior_to field in NEW_CONNECTION_ID frame
@@ -40,6 +42,7 @@ impl CidState {
             retire_timestamp: VecDeque::new(),
             issued,
             active_seq,
+            requested: 0,
             prev_retire_seq: 0,
             retire_seq: 0,
             cid_len,
@@ -126,7 +129,11 @@ impl CidState {
         //
         // If yes (return true), a new CID must be pushed with updated `retire_prior_to` field to remote peer.
         // If no (return false), it means CIDs that reach the end of lifetime have been retired already. Do not push a new CID in order to avoid violating above RFC.
-        (current_retire_prior_to..self.retire_seq).any(|seq| self.active_seq.contains(&seq))
+        let push = (current_retire_prior_to..self.retire_seq).any(|seq| self.active_seq.contains(&seq));
+        if push {
+            self.requested += 1;
+        }
+        push
     }
 
     /// Update cid state when `NewIdentifiers` event is received
@@ -136,6 +143,7 @@ impl CidState {
             return;
         };
         self.issued += ids.len() as u64;
+        self.requested = self.requested.saturating_sub(ids.len() as u64);
         // Record the timestamp of CID with the largest seq number
         let sequence = last_cid.sequence;
         ids.iter().for_each(|frame| {
@@ -166,13 +174,21 @@ impl CidState {
                 "RETIRE_CONNECTION_ID for unissued sequence number",
             ));
         }
-        self.active_seq.remove(&sequence);
+        let newly_retired = self.active_seq.remove(&sequence);
         // Consider a scenario where peer A has active remote cid 0,1,2.
         // Peer B first send a NEW_CONNECTION_ID with cid 3 and retire_prior_to set to 1.
         // Peer A processes this NEW_CONNECTION_ID frame; update remote cid to 1,2,3
         // and meanwhile send a RETIRE_CONNECTION_ID to retire cid 0 to peer B.
         // If peer B doesn't check the cid limit here and send a new cid again, peer A will then face CONNECTION_ID_LIMIT_ERROR
-        Ok(limit > self.active_seq.len() as u64)
+        //
+        // IDs already requested from the endpoint (in response to another retirement, or to replace
+        // IDs whose lifetime ran out) count as well: they will be sent as soon as they arrive.
+        let allow_more =
+            newly_retired && limit > self.active_seq.len() as u64 + self.requested;
+        if allow_more {
+            self.requested += 1;
+        }
+        Ok(allow_more)
     }
 
     /// Length of local Connection IDs
